@@ -279,6 +279,76 @@ Theorem window_needs_start_update :
     /\ firstn 9 (cw_last (cw_run_nostart xs)) = enc_cell (WInt 500).
 Proof. exists [Some (WInt 500); None]. split; [vm_compute; discriminate | vm_compute; reflexivity]. Qed.
 
+(* ---------- persistent queries: the segment flag ---------- *)
+Section PqsFlagProofs.
+  Variable event : Type.
+  Variable m : event -> bool.
+
+  Lemma seg_nonempty_acc : forall blocks f,
+    fold_left (fun f b => f || block_any event m b) blocks f = f || existsb m (concat blocks).
+  Proof.
+    induction blocks as [|b bs IH]; intros f; simpl.
+    - rewrite orb_false_r. auto.
+    - rewrite IH. unfold block_any. rewrite existsb_app. rewrite orb_assoc. auto.
+  Qed.
+
+  (* the flag is the OR over the blocks = "some event of the segment matches", whatever the split into blocks *)
+  Theorem seg_nonempty_is_or : forall blocks, seg_nonempty event m blocks = existsb m (concat blocks).
+  Proof. intros. unfold seg_nonempty. rewrite seg_nonempty_acc. auto. Qed.
+
+  Lemma filter_concat : forall blocks, flat_map (filter m) blocks = filter m (concat blocks).
+  Proof. induction blocks as [|b bs IH]; simpl; auto. rewrite filter_app, IH. auto. Qed.
+
+  Lemma filter_nil_of_none : forall l, existsb m l = false -> filter m l = [].
+  Proof.
+    induction l as [|a l IH]; simpl; intros H; auto.
+    apply orb_false_iff in H. destruct H as [H1 H2]. rewrite H1. auto.
+  Qed.
+
+  (* the answer of a rotated segment served from the persistent-query results = the union of its blocks' matches
+     = the matching events of the segment, for any split into blocks *)
+  Theorem pqs_segment_answer_is_union : forall blocks,
+    pqs_seg_answer event m (seg_nonempty event m blocks) blocks = filter m (concat blocks).
+  Proof.
+    intros blocks. unfold pqs_seg_answer. rewrite seg_nonempty_is_or.
+    destruct (existsb m (concat blocks)) eqn:E.
+    - apply filter_concat.
+    - symmetry. apply filter_nil_of_none. auto.
+  Qed.
+
+  Corollary pqs_segment_answer_split_invariant : forall b1 b2,
+    concat b1 = concat b2 ->
+    pqs_seg_answer event m (seg_nonempty event m b1) b1 = pqs_seg_answer event m (seg_nonempty event m b2) b2.
+  Proof. intros b1 b2 H. rewrite !pqs_segment_answer_is_union, H. auto. Qed.
+
+  (* the last-block-only flag is right exactly when it agrees with the OR, e.g. when the last block matches *)
+  Lemma seg_nonempty_last_spec : forall blocks f,
+    fold_left (fun _ b => block_any event m b) blocks f = match blocks with [] => f | _ => block_any event m (last blocks []) end.
+  Proof.
+    induction blocks as [|b bs IH]; intros f; simpl; auto.
+    rewrite IH. destruct bs; auto.
+  Qed.
+
+  Theorem seg_nonempty_last_guarded : forall blocks,
+    blocks <> [] -> block_any event m (last blocks []) = true ->
+    seg_nonempty_last event m blocks = seg_nonempty event m blocks.
+  Proof.
+    intros blocks NE H. unfold seg_nonempty_last. rewrite seg_nonempty_last_spec.
+    destruct blocks as [|b bs]; [congruence|]. rewrite H. symmetry.
+    rewrite seg_nonempty_is_or. apply existsb_exists.
+    unfold block_any in H. apply existsb_exists in H. destruct H as [x [Hx Mx]].
+    exists x. split; auto. apply in_concat. exists (last (b :: bs) []). split; auto.
+    apply (@exists_last _ (b :: bs)) in NE. destruct NE as [l' [a ->]]. rewrite last_last. apply in_or_app. right. left. auto.
+  Qed.
+End PqsFlagProofs.
+
+(* blocks [match],[no match]: the last-block flag is false, the segment would be skipped and the match lost *)
+Theorem pqs_last_block_flag_refuted :
+  exists (m : N -> bool) blocks,
+    pqs_seg_answer N m (seg_nonempty_last N m blocks) blocks <> filter m (concat blocks)
+    /\ pqs_seg_answer N m (seg_nonempty N m blocks) blocks = filter m (concat blocks).
+Proof. exists (N.eqb 1%N), [[1%N]; [2%N]]. split; [vm_compute; discriminate | vm_compute; reflexivity]. Qed.
+
 (* ---------- range queries on the block range index: layout invariance, composed ---------- *)
 From SigM Require Import Prune.
 From SigP Require Import PruneProofs.
